@@ -271,9 +271,11 @@ func negotiateFeatures(ctx context.Context, s *Session, first, ws bool, features
 		}
 		s.negotiated[data.feature.Name.Space] = struct{}{}
 
-		// If we negotiated a required feature or a stream restart is required
-		// we're done with this feature set.
-		if rw != nil || data.req {
+		// If negotiating the feature failed, we negotiated a required feature, or
+		// a stream restart is required we're done with this feature set.
+		// In particular the error of an optional feature must not be overwritten
+		// by the outcome of the next one.
+		if err != nil || rw != nil || data.req {
 			break
 		}
 	}
